@@ -2,7 +2,8 @@
 import c01
 from exact import *
 THEOREMS = ["Parmcb.C02." + t for t in ["c02_min", "c02_value_unique", "c02_ret", "c02_mcb_weight_unique", "c02_validated_run_is_mcb", "c02_sorted_weights", "c02_basis_card", "c02_allVertices", "c02_hiddenEdge_complete", "c02_hiddenEdge_sound", "c02_search_value", "c02_picks_ok", "c02_caller_numbering",
-    "c02_fvs_trees_end_to_end", "c02_iso_trees_end_to_end", "c02_signed_end_to_end", "c02_search_sound", "c02_search_complete", "c02_signed_phase", "c14_builder", "c02_sorter_ok"]]
+    "c02_fvs_trees_end_to_end", "c02_iso_trees_end_to_end", "c02_signed_end_to_end", "c02_search_sound", "c02_search_complete", "c02_signed_phase", "c14_builder", "c02_sorter_ok",
+    "c02_heap_top_min", "c02_heap_push", "c02_heap_pop", "c02_heap_decrease_key", "c02_heap_search_is_oracle_run", "c02_signed_heap_end_to_end"]]
 def the_oracle(case, block, mu_cache):
     key = json.dumps([case[0], case[1]])
     if key not in mu_cache: mu_cache[key] = mcb_weight_oracle(case[0], case[1])
